@@ -76,6 +76,7 @@ type interpreter struct {
 	lastNow  *Term
 	notes    map[string]string
 	thorough bool
+	uniq     map[string]*value // unique.Make canonical values (never rolled back: canonical by value)
 	curFn    *ssa.Function
 	curInstr ssa.Instruction
 	curFrame *frame
@@ -816,7 +817,7 @@ func visitInitInstr(fr *frame, instr ssa.Instruction) (k continuation, ok bool) 
 	defer func() {
 		if r := recover(); r != nil {
 			fr.i.depth = fr.depth
-			why := panicString(r)
+			why := panicString(r) + " [while initialising " + fr.fn.Pkg.Pkg.Path() + " at " + fr.i.prog.Fset.Position(instr.Pos()).String() + "]"
 			if v, isv := instr.(ssa.Value); isv {
 				var pv value = poison{why}
 				if tup, okt := v.Type().(*types.Tuple); okt && tup.Len() > 1 {
